@@ -177,12 +177,16 @@ def distSpec (g : Grid α) (mld : Option Nat) : α :=
 /-- `if s.adj_max_dist and d > s.adj_max_dist: d = inf` -/
 def finalCheck (m d : α) : α := if ¬ m ≤ 0 ∧ ¬ d ≤ m then top else d
 
-/-- `dtw.distance` (pure Python) in internal representation; `mld` = `max_length_diff` (none = off) -/
-def distModel (g : Grid α) (m : α) (mld : Option Nat) : α :=
+/-- `dtw.distance` / `dtw_distance` in internal representation; `mld` = `max_length_diff` (none = off).
+`chk` says whether the final "over threshold ⇒ infinity" conversion is applied: always in Python
+(`if s.adj_max_dist and d > s.adj_max_dist`), in C only for a user-given `max_dist`
+(`settings->max_dist != 0 && result > settings->max_dist`), not under `use_pruning`. -/
+def distModel (g : Grid α) (m : α) (mld : Option Nat) (chk : Bool := true) : α :=
+  let v := endMin g (matP g m g.r)
+  let v' := if chk then finalCheck m v else v
   match mld with
-  | some k => if k < (g.r - g.c) + (g.c - g.r) then top
-              else finalCheck m (endMin g (matP g m g.r))
-  | none => finalCheck m (endMin g (matP g m g.r))
+  | some k => if k < (g.r - g.c) + (g.c - g.r) then top else v'
+  | none => v'
 
 end
 
